@@ -257,6 +257,33 @@ fn test(c: &Case, st: &mut Stats) -> TestResult {
                 if tails >= 2 {
                     st.nontrivial(digest(&bytes));
                 }
+                // "covered by the HMAC that validate_integrity checks": when validation succeeds, the
+                // HMAC it accepted must be the one over the bytes before the exposed integrity
+                // attribute of that algorithm, for only then do the exposed attributes (all of which
+                // lie before it) sit inside the authenticated range. An independent HMAC decides.
+                if let Ok(msg) = Message::from_bytes(&bytes) {
+                    let v = guard(|| msg.validate_integrity(&w.creds.to_lib())).map_err(|p| Fail::new("c10-panic", p))?;
+                    if let Ok(algo) = v {
+                        let ty = if algo == IntegrityAlgorithm::Sha1 { T_MI } else { T_SHA256 };
+                        if let Some(a) = r.first_exposed(ty) {
+                            let verdict = refstun::integrity_verdict(&bytes, a, &w.creds.key());
+                            ensure!(
+                                verdict == refstun::IntegrityVerdict::Correct,
+                                "c10-outside-hmac",
+                                "validate_integrity answers Ok({:?}) but the exposed integrity attribute at {} is {:?} for the {} bytes before it: what was validated is not the range the exposed attributes lie in (exposed before it: {:04x?})",
+                                algo,
+                                a.start,
+                                verdict,
+                                a.start,
+                                r.exposed_attrs().iter().filter(|x| x.start < a.start).map(|x| x.ty).collect::<Vec<_>>()
+                            );
+                            st.class("validated HMAC confirmed to cover the bytes before the exposed integrity attribute");
+                        }
+                    }
+                    if w.attrs.iter().any(|a| matches!(a, WireAttr::Replay)) {
+                        st.class("integrity value replayed from a shorter prefix of the message");
+                    }
+                }
             }
         }
         Case::Prefix { mtype, tid, prefix, creds } => {
